@@ -84,3 +84,19 @@ Theorem C11_L0_checker_rejects_wrong_forms :
   /\ Fmt0Proof.calls_ok CallForm.NoneM false (Fmt0.EField (Fmt0.ECall (Fmt0.EName (Lex.str "f")) true (cons (Fmt0.EStr (Lex.str "s")) nil)) (Lex.str "x")) = false.
 Proof. exact Fmt0Proof.calls_ok_rejects. Qed.
 Print Assumptions C11_L0_checker_rejects_wrong_forms.
+(* space_after_function_names as a statement about the printed TOKENS of L0 (Fmt0Space.v): a scanner that knows nothing
+   of the tree demands, at every `(` that opens call arguments (the last token before it, blanks aside, ends a value and
+   no line break lies between), a blank in front exactly under Calls / Always, and at the `(` behind the name of a
+   function header exactly under Definitions / Always; it accepts what format0 prints for EVERY program and
+   configuration.  (By C01_L0_formatted_text_lexes_back these tokens are what the printed text lexes to.) *)
+From SV Require Fmt0Space.
+Theorem C11_L0_printed_tokens_obey_space_after_function_names : forall c p, Fmt0Space.scan c (Fmt0.pprog c (Fmt0.norm0 c p)) <> None.
+Proof. exact Fmt0Space.format0_obeys_space_after_function_names. Qed.
+Print Assumptions C11_L0_printed_tokens_obey_space_after_function_names.
+(* the scanner is not vacuous: `f ()` under Never, `f()` under Calls, `function g()` under Definitions, `function g ()` under
+   Calls, `(a)()` under Calls are rejected; `return (a)()` under Never is accepted *)
+Theorem C11_L0_spacing_scanner_rejects_wrong_blanks :
+  Fmt0Space.scan (Fmt0Space.cfg_of CallForm.SNever) (cons (Lex.TIdent (Lex.str "f")) (cons Fmt0.sp (cons (Fmt0.kw "(") (cons (Fmt0.kw ")") nil)))) = None
+  /\ Fmt0Space.scan (Fmt0Space.cfg_of CallForm.SCalls) (cons (Lex.TIdent (Lex.str "f")) (cons (Fmt0.kw "(") (cons (Fmt0.kw ")") nil))) = None.
+Proof. split; [exact (proj1 Fmt0Space.scanner_rejects)|exact (proj1 (proj2 Fmt0Space.scanner_rejects))]. Qed.
+Print Assumptions C11_L0_spacing_scanner_rejects_wrong_blanks.
